@@ -61,21 +61,29 @@ package trie
 // lockdepth(m) is a ghost counter incremented by Lock/RLock and decremented by Unlock/RUnlock
 // on the mutex at address m. A failed disk write must not leave the database locked.
 //@ func Database.Commit
-//@   requires db != nil && db.diskdb != nil
 //@   ensures[C04] @lockbalance lockdepth(addr(db.lock)) == old(lockdepth(addr(db.lock)))
 //@   loop 1 invariant[C04] lockdepth(addr(db.lock)) == old(lockdepth(addr(db.lock))) + 1
 
 //@ func Database.Dereference
-//@   requires db != nil
 //@   ensures[C04] @lockbalance lockdepth(addr(db.lock)) == old(lockdepth(addr(db.lock)))
 
 //@ func Database.Reference
-//@   requires db != nil
 //@   ensures[C04] @lockbalance lockdepth(addr(db.lock)) == old(lockdepth(addr(db.lock)))
 
 //@ func Database.Node
-//@   requires db != nil
 //@   ensures[C04] @lockbalance lockdepth(addr(db.lock)) == old(lockdepth(addr(db.lock)))
 
 //@ func Database.secureKey
 //@   opaque
+
+//@ func Database.Insert
+//@   ensures[C04] @lockbalance lockdepth(addr(db.lock)) == old(lockdepth(addr(db.lock)))
+
+//@ func Database.preimage
+//@   ensures[C04] @lockbalance lockdepth(addr(db.lock)) == old(lockdepth(addr(db.lock)))
+
+//@ func Database.Nodes
+//@   ensures[C04] @lockbalance lockdepth(addr(db.lock)) == old(lockdepth(addr(db.lock)))
+
+//@ func Database.Size
+//@   ensures[C04] @lockbalance lockdepth(addr(db.lock)) == old(lockdepth(addr(db.lock)))
